@@ -920,8 +920,32 @@ pub fn check_step(cx: &StepCtx) -> Vec<Violation> {
                     let rel = released_claims(pre, *sender);
                     if rel >= 1 {
                         out.push(v("C01", "funded-claim-withdraw-failed", format!("withdraw by {} failed with released claims worth {}", sender, rel)));
+                    } else if due >= 1 {
+                        // matured by time: would the withdrawal go through if the hub held a little more?
+                        let mut c2 = cx.chain_pre.clone();
+                        // same release (balance − prev_hub_balance unchanged), more funds
+                        *c2.bank.entry((HUB, 0)).or_insert(0) += 1000;
+                        if let Some(st) = c2.stores.get_mut(&HUB) {
+                            let _ = basset_sei_hub::state::STATE.update(st, |mut x| -> cosmwasm_std::StdResult<_> {
+                                x.prev_hub_balance += cosmwasm_std::Uint128::new(1000);
+                                Ok(x)
+                            });
+                        }
+                        let r2 = c2.apply(op);
+                        if r2.ok {
+                            let h2 = c2.hub_history();
+                            let newly: Vec<&HistView> = h2.iter().filter(|h| h.released && !pre.hist.iter().any(|p| p.id == h.id && p.released)).collect();
+                            let expected: u128 = newly.iter().map(|h| floor_mul(h.b_amt, h.b_applied) + floor_mul(h.s_amt, h.s_applied)).sum();
+                            let arrived = pre.hub_bank.saturating_sub(pre.raw[5]);
+                            let sl = expected.saturating_sub(arrived);
+                            let n = newly.len() as u128;
+                            let d5 = n >= 3 && n.saturating_mul(sl) >= D;
+                            out.push(v("C01", if d5 { "release-overallocated:n-times-slash-ge-1e18" } else { "matured-claim-unfunded" },
+                                format!("withdraw by {} failed for lack of funds: {} batches released together, {} arrived of {} undelegated", sender, n, arrived, expected)));
+                            out.push(v("C09", if d5 { "release-overallocated:n-times-slash-ge-1e18" } else { "matured-claim-unfunded" },
+                                format!("withdraw by {} after the unbonding period failed for lack of funds", sender)));
+                        }
                     }
-                    let _ = due;
                 }
             }
         }
